@@ -49,8 +49,9 @@ MISSING = re.compile(r"cannot find value `(\w+)` in this scope")
 
 def run_group(group, canary, rlimit, seed, tag=""):
     auto = []
-    for attempt in range(4):
-        r = A.assemble(group, canary=canary, auto_consts=tuple(auto))
+    stubs = set()
+    for attempt in range(5):
+        r = A.assemble(group, canary=canary, auto_consts=tuple(auto), stubs=tuple(stubs))
         os.makedirs(BUILD, exist_ok=True)
         path = os.path.join(BUILD, f"{group}{'_canary' if canary else ''}{tag.replace('.', '_')}.rs")
         with open(path, "w") as f:
@@ -69,6 +70,11 @@ def run_group(group, canary, rlimit, seed, tag=""):
                 if hit and (hit[0], hit[1], mm.group(1)) not in auto:
                     auto.append((hit[0], hit[1], mm.group(1)))
                     added = True
+        # injected proof text that does not compile (a local it names was renamed): that function is stubbed and the group run again
+        new_stubs = set(cls.get("infra_injected", ())) - stubs
+        if new_stubs:
+            stubs |= new_stubs
+            added = True
         if not added:
             break
     return dict(group=group, canary=canary, path=path, asm=r, res=res, cls=cls)
@@ -145,6 +151,14 @@ def main(argv):
                 m_ = f"{li['unit']}.{li['fn']}: {li['reason']}"
                 if m_ not in undecided:
                     undecided.append(m_)
+        for sb in r["asm"].get("stubbed", []):
+            probe = [f"{sb['unit']}.{sb['fn']}.body", f"{sb['unit']}.{sb['fn']}.x"]
+            claimed = any(matches(pb, include) and not matches(pb, exclude) for pb in probe) \
+                or any(pat.startswith(f"{sb['unit']}.{sb['fn']}.") for pat in include)
+            if claimed:
+                m_ = f"{sb['unit']}.{sb['fn']} is not checked in this run ({sb['reason']}): its contract is used by its callers, its own obligations are undecided"
+                if m_ not in undecided:
+                    undecided.append(m_)
         lm = r["asm"]["linemap"]
         all_obl |= set(lm["obligations"])
         all_failed |= set(r["cls"]["failed"]) | set(r["cls"]["rlimit"])
@@ -201,9 +215,12 @@ def main(argv):
             undecided.append(f"[{r['group']} canary run] {m}")
         if r["cls"]["infra"]:
             continue
+        stub_set = {f"{sb['unit']}.{sb['fn']}" for rr in results for sb in rr["asm"].get("stubbed", [])}
         for oid in lm["obligations"]:
             if oid.endswith(".vx_canary"):
                 base = oid[:-len(".vx_canary")]
+                if base in stub_set:
+                    continue        # not checked in this run (already reported as undecided)
                 if not any(o.startswith(base + ".") for o in obligations):
                     continue
                 canaries["expected"] += 1
